@@ -320,6 +320,85 @@ def x_istream_getc(eng, st, a):
     return e if isinstance(e, int) else simp(z3.ZeroExt(24, e))
 
 
+# ---- formatted floating point input from a streambuf get area (boost::lexical_cast<double/float> builds a std::istream over
+# the bytes of the value): [facet.num.get.virtuals] stage 2 accumulation as libstdc++ does it, stage 3 = the host strtod (Python
+# float()).  Symbolic bytes are enumerated by forking (concretize), so every value is concrete on its path.
+def _istream_area(eng, st, is_):
+    vptr = cells_int(eng.mem_read(st, is_, 8))
+    ios = is_ + sext_const(cells_int(eng.mem_read(st, vptr - 24, 8)), 64)
+    sb = cells_int(eng.mem_read(st, ios + 232, 8))
+    gptr = cells_int(eng.mem_read(st, sb + 16, 8)); egptr = cells_int(eng.mem_read(st, sb + 24, 8))
+    if not all(type(x) is int for x in (ios, sb, gptr, egptr)) or sb == 0:
+        raise EngineError('formatted input from a stream without a concrete get area')
+    return ios, sb, gptr, egptr
+
+
+def _extract_fp(eng, st, a, fmt):
+    ios, sb, gptr, egptr = _istream_area(eng, st, a[0])
+    state = cells_int(eng.mem_read(st, ios + IOS_STATE, 4))
+    if state != 0:                                        # sentry fails
+        eng.mem_write(st, ios + IOS_STATE, int_cells(state | 4, 4)); return a[0]
+    flags = cells_int(eng.mem_read(st, ios + IOS_FLAGS, 4))
+    pos = gptr; acc = ''; sign_ok = True; mant = dec = sci = False
+
+    def peek(p):
+        c = _cell_expr(eng.mem_read(st, p, 1)[0])
+        return c if isinstance(c, int) else eng.concretize(st, c, 'byte of a floating point text', cap=600)
+    if flags & 0x1000:                                    # skipws
+        while pos < egptr and peek(pos) in b' \t\n\v\f\r':
+            pos += 1
+    while pos < egptr:
+        c = chr(peek(pos))
+        if c in '+-' and sign_ok:
+            acc += c
+        elif c.isdigit() and c.isascii():
+            acc += c; mant = True
+        elif c == '.' and not dec and not sci:
+            acc += c; dec = True
+        elif c in 'eE' and not sci and mant:
+            acc += c; sci = True; sign_ok = True; pos += 1; continue
+        else:
+            break
+        sign_ok = False; pos += 1
+    import re as _re
+    ok = _re.match(r'^[+-]?(\d+\.?\d*|\.\d+)([eE][+-]?\d+)?$', acc) is not None
+    v = float(acc) if ok else 0.0
+    if fmt == '<f':
+        try:
+            struct.pack('<f', v)
+        except OverflowError:
+            v = float('inf') if v > 0 else float('-inf'); ok = False
+    elif v in (float('inf'), float('-inf')):
+        ok = False                                        # ERANGE: failbit, value = +-max; boost only looks at the fail bit
+    state = (0 if ok else 4) | (2 if pos >= egptr else 0)
+    eng.mem_write(st, a[1], list(struct.pack(fmt, v)))
+    eng.mem_write(st, sb + 16, int_cells(pos, 8))
+    eng.mem_write(st, ios + IOS_STATE, int_cells(state, 4))
+    return a[0]
+
+
+@ext('_ZNSi10_M_extractIdEERSiRT_')
+def x_istream_double(eng, st, a):
+    return _extract_fp(eng, st, a, '<d')
+
+
+@ext('_ZNSi10_M_extractIfEERSiRT_')
+def x_istream_float(eng, st, a):
+    return _extract_fp(eng, st, a, '<f')
+
+
+@ext('_ZNSi3getEv')
+def x_istream_get(eng, st, a):
+    ios, sb, gptr, egptr = _istream_area(eng, st, a[0])
+    state = cells_int(eng.mem_read(st, ios + IOS_STATE, 4))
+    if state == 0 and gptr < egptr:
+        c = _cell_expr(eng.mem_read(st, gptr, 1)[0])
+        eng.mem_write(st, sb + 16, int_cells(gptr + 1, 8))
+        return c if isinstance(c, int) else simp(z3.ZeroExt(24, c))
+    eng.mem_write(st, ios + IOS_STATE, int_cells(state | 6, 4))       # eofbit | failbit
+    return 0xffffffff
+
+
 # ---- threads (single-threaded exploration: locks always succeed)
 @ext('pthread_mutex_lock', 'pthread_mutex_unlock', 'pthread_mutex_init', 'pthread_mutex_destroy')
 def x_mutex(eng, st, a):
@@ -400,7 +479,7 @@ def x_dynamic_cast(eng, st, a):
 # ---- VTTs / vtables of the stream classes (external constants): only the virtual-base offset slot matters
 STREAM_VBASE = {'NSt7__cxx1119basic_ostringstreamIcSt11char_traitsIcESaIcEEE': 112, 'NSt7__cxx1119basic_istringstreamIcSt11char_traitsIcESaIcEEE': 120,
                 'NSt7__cxx1118basic_stringstreamIcSt11char_traitsIcESaIcEEE': 128, 'St14basic_ofstreamIcSt11char_traitsIcEE': 248,
-                'St14basic_ifstreamIcSt11char_traitsIcEE': 256}
+                'St14basic_ifstreamIcSt11char_traitsIcEE': 256, 'Si': 16}
 
 
 def _prepare_streams(irm):
@@ -646,6 +725,8 @@ def _format(eng, st, fmt_addr, nextarg):
             i += 1; prec = b''
             while i < len(fmt) and fmt[i:i + 1].isdigit():
                 prec += fmt[i:i + 1]; i += 1
+            if prec == b'' and fmt[i:i + 1] == b'*':
+                pv = sext_const(nextarg() & 0xffffffff, 32); prec = str(pv).encode() if pv >= 0 else None; i += 1
         lng = 0
         while i < len(fmt) and fmt[i:i + 1] in b'lhzjt':
             lng += fmt[i:i + 1] in b'lzjt'; i += 1
@@ -674,8 +755,13 @@ def _format(eng, st, fmt_addr, nextarg):
                 piece = piece[:int(prec)]
         elif conv == b'p':
             nextarg(); piece = list(b'0xPTR')
-        elif conv in b'fgeG':
-            v = nextarg(); piece = list(b'<float>')
+        elif conv in b'fgeGEF':
+            v = nextarg()
+            if isinstance(v, float) or type(v) is int:
+                fv = v if isinstance(v, float) else struct.unpack('<d', struct.pack('<Q', v & 0xffffffffffffffff))[0]
+                piece = list((('%' + flags.decode() + (('.' + prec.decode()) if prec is not None else '') + conv.decode()) % fv).encode())
+            else:
+                piece = list(b'<float>')
         else:
             raise EngineError('printf conversion %r' % conv)
         if width and len(piece) < int(width):
